@@ -86,16 +86,24 @@ theorem c16_successor_then_registered (l : List Sa) (n : SaCore) :
   simp [registered]
 
 /-- an IKE_SA_INIT request always creates a fresh responder IKE_SA for the address pair (when a
-    configuration exists), appended to the table, and only that new IKE_SA sees the request -/
+    configuration exists) and only that new IKE_SA sees the request; it is appended to the table when
+    the request was accepted, and leaves no trace when it was not (the IKE_SA is still INITIAL) -/
 theorem c16_init_creates (H : Handlers τ) (t t' : τ) (c : Ctl) (now : Nat) (h : Header) (p : Option Msg) (me peer : Bytes) (n : SaCore)
     (hk : h.exch = 34 ∧ h.isResp = false) (hn : H.newSa t now false h.spiI me peer = (t', some n)) :
     let sas := c.sas ++ [{ core := n, succ := none }]
     let n' := if halfOpen sas > c.threshold then { n with cookie := true } else n
     let r := processMessage H t' { core := n', succ := none } now p
-    (dispatch H t c now (some h) p me peer).2.ctl.sas = (afterMessage sas (sas.length - 1) r.2.sa).1 := by
+    (r.2.sa.core.st = stINITIAL → (dispatch H t c now (some h) p me peer).2.ctl = c) ∧
+    (r.2.sa.core.st ≠ stINITIAL →
+      (dispatch H t c now (some h) p me peer).2.ctl.sas = (afterMessage sas (sas.length - 1) r.2.sa).1) := by
   have hk' : h.exch = 34 ∧ ¬ h.isResp = true := ⟨hk.1, by simp [hk.2]⟩
-  simp only [dispatch, hk', if_true, hn]
-  rfl
+  constructor
+  · intro hst
+    simp only [dispatch, hk', hn]
+    simp [hst]
+  · intro hst
+    simp only [dispatch, hk', hn]
+    simp [hst]
 
 /-- no configuration for the address pair: nothing is created (the exception escapes — see C17) -/
 theorem c16_init_without_configuration (H : Handlers τ) (t t' : τ) (c : Ctl) (now : Nat) (h : Header) (p : Option Msg) (me peer : Bytes)
